@@ -78,11 +78,11 @@ def negatives(rng, n):
             kind = rng.choice(['dl', 'sl', 'comp', 'kernel', 'rest', 'sc2'])
             tree, spec = PG.rand_statement(rng, kind)
             txt = PG.render_statement(tree, spec, PG.Layout(None))
-            for sign in ('=', ':'):
-                if ' ' + sign + ' ' in txt:
-                    txt = txt.replace(' ' + sign + ' ', ' ', 1)
-                    out.append(('missing-assign:' + kind, txt + '\n'))
-                    break
+            pos = [txt.find(' ' + sign + ' ') for sign in ('=', ':') if ' ' + sign + ' ' in txt]
+            if pos:
+                i = min(pos)                      # the mandatory sign after the name
+                txt = txt[:i] + ' ' + txt[i + 3:]
+                out.append(('missing-assign:' + kind, txt + '\n'))
         elif k < 0.7:
             tree, spec = PG.rand_statement(rng, 'kernel')
             txt = PG.render_statement(tree, spec, L)
@@ -132,7 +132,8 @@ def run(res, proof):
         cases.append(('negative:' + fam, txt, None))
     # keyword-prefixed kernel-complex names (known finding) and raw mutations: correspondence only
     for kw in PG.KEYWORDS:
-        cases.append(('keyword-prefix:' + kw, kw + 'y = a b\n', [['kernel-complex', kw + 'y', ['a', 'b']]]))
+        for pat in (['a', 'b'], ['5'], ['NNN'], ['short']):
+            cases.append(('keyword-prefix:' + kw, kw + 'y = ' + ' '.join(pat) + '\n', [['kernel-complex', kw + 'y', pat]]))
     base = [c for c in cases if c[0].startswith('stmt')]
     for _ in range(1500 if quick else 30000):
         lab, txt, _ = rng.choice(base)
